@@ -3,4 +3,4 @@ From LV Require Import Region.RegionDefs Update.UpdateDefs.
 Require Import ExtrOcamlBasic.
 Extraction Language OCaml.
 Extraction "../build/ocaml/C02/model.ml"
-  step init_state pending inv_client_b pic_get rgn_iter rgn_is_empty zrange.
+  step init_state pending inv_client_b pic_get rgn_iter rgn_is_empty zrange fmt_bpp fmt_bits.
